@@ -61,6 +61,44 @@ package generic
 //@ pred allIn(m *utilities.CharReferenceMap, s io.IScanner, k0 int, k1 int) =
 //@     forall i int :: k0 <= i && i < k1 ==> view(m, sc(s).content[i]) != nil
 //
+// "identifiers may start with any configured letter, Latin or not" / "disabling a range really disables it": which characters a
+// word may contain is exactly what was configured - SetWordChars rewrites the class on its range and nowhere else
+//@ func (c *GenericWordState) SetWordChars
+//@   requires c != nil && mapInv(c.mp) && 0 <= fromSymbol && fromSymbol <= toSymbol && fromSymbol <= 0xfffe
+//@   ensures[C13,C17] mapInv(c.mp) && c.mp == old(c.mp)
+//@   ensures[C13,C17] forall ch rune :: (view(c.mp, ch) != nil) == ((fromSymbol <= ch && ch <= min(toSymbol, 0xfffe)) ? enable : old(view(c.mp, ch) != nil))
+//@   assigns c.mp.initialInterval[*], c.mp.otherIntervals
+//@   nopanic
+//@ func (c *GenericWordState) ClearWordChars
+//@   requires c != nil && c.mp != nil
+//@   ensures[C13,C17] mapInv(c.mp) && c.mp == old(c.mp) && fresh(c.mp.initialInterval) && (forall ch rune :: view(c.mp, ch) == nil)
+//@   assigns c.mp.initialInterval, c.mp.otherIntervals
+//@   nopanic
+//@ func (c *GenericWhitespaceState) SetWhitespaceChars
+//@   requires c != nil && mapInv(c.mp) && 0 <= fromSymbol && fromSymbol <= toSymbol && fromSymbol <= 0xfffe
+//@   ensures[C13,C17] mapInv(c.mp) && c.mp == old(c.mp)
+//@   ensures[C13,C17] forall ch rune :: (view(c.mp, ch) != nil) == ((fromSymbol <= ch && ch <= min(toSymbol, 0xfffe)) ? enable : old(view(c.mp, ch) != nil))
+//@   assigns c.mp.initialInterval[*], c.mp.otherIntervals
+//@   nopanic
+//@ func (c *GenericWhitespaceState) ClearWhitespaceChars
+//@   requires c != nil && c.mp != nil
+//@   ensures[C13,C17] mapInv(c.mp) && c.mp == old(c.mp) && (forall ch rune :: view(c.mp, ch) == nil)
+//@   assigns c.mp.initialInterval, c.mp.otherIntervals
+//@   nopanic
+// the default whitespace: every character up to the blank
+//@ func NewGenericWhitespaceState
+//@   ensures[C13] fresh(result) && result.mp != nil && mapInv(result.mp)
+//@   ensures[C13] forall ch rune :: (view(result.mp, ch) != nil) == (0 <= ch && ch <= 32)
+//@   assigns nothing
+//@   nopanic
+// the default word characters: letters, digits, minus, underscore, Latin-1 letters from U+00C0 and everything from U+0100 to U+FFFE
+//@ spec genericWordChar(ch rune) bool = (97 <= ch && ch <= 122) || (65 <= ch && ch <= 90) || (48 <= ch && ch <= 57) || ch == 45 || ch == 95 ||
+//@     (192 <= ch && ch <= 255) || (256 <= ch && ch <= 65534)
+//@ func NewGenericWordState
+//@   ensures[C13] fresh(result) && result.mp != nil && mapInv(result.mp) && fresh(result.mp) && fresh(result.mp.initialInterval)
+//@   ensures[C13] forall ch rune :: (view(result.mp, ch) != nil) == genericWordChar(ch)
+//@   assigns nothing
+//@   nopanic
 //@ func (c *GenericWordState) NextToken
 //@   requires c != nil && mapInv(c.mp) && isScanner(scanner) && sc(scanner).position + 1 < len(sc(scanner).content)
 //@   requires forall i int :: 0 <= i && i < len(sc(scanner).content) ==> scalar(sc(scanner).content[i])
